@@ -423,6 +423,37 @@ func opsCompare(c *Case, out any) []Finding {
 						fs = append(fs, Finding{Kind: "correspondence", Detail: fmt.Sprintf("query %s: results differ: model %s impl %s", qd, canonStr(get(model, "ok", "tags")), canonStr(get(r, "tags"))), Signature: "ops:parametersFor:res"})
 					}
 				}
+				// C15: an unresolvable / non-parameter $ref is reported through the callback: the first one always, all of
+				// them (in document order, path-level list first) when the callback never says stop
+				if bad, _ := get(specA, "badRefs").([]any); designated && len(bad) > 0 {
+					calls, _ := get(r, "calls").([]any)
+					var got []any
+					for _, c := range calls {
+						if cl, ok := c.([]any); ok && len(cl) > 0 {
+							got = append(got, cl[0])
+						}
+					}
+					neverStops := true
+					if sc, ok := get(q, "script").([]any); ok {
+						for _, a := range sc {
+							if b, ok := a.(bool); ok && !b {
+								neverStops = false
+							}
+						}
+					}
+					plainVariant := false
+					if b, ok := get(q, "cb").(bool); ok && !b {
+						plainVariant = true
+					}
+					switch {
+					case plainVariant:
+						fs = append(fs, Finding{Kind: "property", Detail: fmt.Sprintf("query %s: the $ref %v designates no shared parameter but the plain variant returns normally", qd, bad[0]), Signature: "ops:" + kind + ":badref-no-panic"})
+					case len(got) == 0 || !jsonEq(got[0], bad[0]):
+						fs = append(fs, Finding{Kind: "property", Detail: fmt.Sprintf("query %s: the $ref %v designates no shared parameter but the callback was first told about %v", qd, bad[0], got), Signature: "ops:" + kind + ":badref-not-reported"})
+					case neverStops && !jsonEq(got, bad):
+						fs = append(fs, Finding{Kind: "property", Detail: fmt.Sprintf("query %s: the $refs %v designate no shared parameter but the callback was told about %v", qd, bad, got), Signature: "ops:" + kind + ":badref-not-reported"})
+					}
+				}
 				if !jsonEq(get(r, "calls"), get(model, "ok", "calls")) {
 					fs = append(fs, Finding{Kind: "correspondence", Detail: fmt.Sprintf("query %s: callback logs differ: model %s impl %s", qd, canonStr(get(model, "ok", "calls")), canonStr(get(r, "calls"))), Signature: "ops:" + kind + ":calls"})
 				}
